@@ -107,9 +107,16 @@ class CliWorld:
         #  depend on the collapsed-commit finding; the two features are exercised in separate worlds)
         self.alt_apply = ch.draw(3, "dep-alt-world") == 0 and "force_commit" not in self.allow
 
+        hoisted = []
+
         def emit(rules, ind, nested_ok):
             for r in rules:
                 if ch.draw(3, "dep-rule") == 0:
+                    if ind == 0 and r.block and not r.rewrite and r.children and not getattr(self, "_shared_child", False) \
+                            and ch.draw(2, "dep-hoist") == 0:
+                        # no rule for the block header: rules for commands INSIDE the block are written at the top level,
+                        # the way huawei.deploy lists 'undo peer *' for commands that live inside 'bgp'
+                        hoisted.append(r)
                     continue
                 for form in ("direct", "removal"):
                     if ch.draw(2, "dep-form") == 0:
@@ -121,7 +128,8 @@ class CliWorld:
                         if r.tail:
                             pat += " ~"
                     timeout = ch.pick([None, 45, 90, 200], "dep-timeout")
-                    alt = ind == 0 and not r.block and self.alt_apply and ch.draw(3, "dep-alt") == 0
+                    # (a second apply logic only for genuinely top-level commands, never for hoisted rules of nested ones)
+                    alt = ind == 0 and nested_ok and not r.block and self.alt_apply and ch.draw(3, "dep-alt") == 0
                     line = "    " * ind + pat + ("" if timeout is None else " %%timeout=%d" % timeout) + \
                         (" %apply_logic=simlogic.apply_alt" if alt else "")
                     dialogs = []
@@ -137,6 +145,8 @@ class CliWorld:
                     if form == "direct" and r.block and not r.rewrite and nested_ok:
                         spec["children"] = list(emit(r.children, ind + 1, True))
         self.deploy_specs = list(emit(self.rb.rules, 0, True))
+        for blk in hoisted:
+            self.deploy_specs.extend(emit([c for c in blk.children if not c.block], 0, False))
         # a rule for a wrapper word, to see fill_cmd_params at work
         self.wrapper_rule = None
         t = W.session_table(self.hw)
